@@ -6,7 +6,8 @@ with `multiprocessing`, which cannot be done from the daemonic workers of a `mul
 case = {"ids": [str…], "beh": {id: beh}, "mode": "ded"|"inproc", "keep": bool, "rate": int, "timeout": seconds,
         "consume": ["all"] | ["close", k] | ["raise", k]}
 beh  = {"k":"verdict","s":status,"m":msg} | {"k":"bare","s":status} | {"k":"playerRaises","m":msg} |
-       {"k":"extractorRaises","m":msg} | {"k":"comparatorRaises","m":msg} | {"k":"exit"} | {"k":"hang"} |
+       {"k":"extractorRaises","m":msg} | {"k":"comparatorRaises","m":msg} | {"k":"exit"} |
+       {"k":"hang"[, "sigterm": "ignore"|"handler"]} (the hanging player first makes its process immune to SIGTERM) |
        {"k":"late","s":status,"m":msg}
 
 `late` ("the worker answers just after the parent gave up") is made deterministic the way DESIGN.md describes: the
@@ -21,6 +22,7 @@ transcript = {"comparisons": [{id,status,message,playback,expected,actual,flags}
 """
 import json
 import os
+import signal
 import sys
 import tempfile
 import threading
@@ -111,6 +113,12 @@ def main():
         if k == 'exit' and in_worker:
             os._exit(3)
         if k == 'hang' and in_worker:
+            # variants of the same behaviour: the replayed code has installed a graceful-shutdown SIGTERM handler (or
+            # ignores SIGTERM) before it hangs - only SIGKILL gets rid of such a worker
+            if b.get('sigterm') == 'ignore':
+                signal.signal(signal.SIGTERM, signal.SIG_IGN)
+            elif b.get('sigterm') == 'handler':
+                signal.signal(signal.SIGTERM, lambda signum, frame: None)
             time.sleep(HANG)
         if k == 'late' and in_worker:
             time.sleep(max(0.0, t0 + give_up + LATE_DELTA - time.time()))
